@@ -24,6 +24,9 @@ RULE = ("E2 on a real Buffer (real move_hot_to_cold / move_cold_to_hot "
         "steps, afterwards the observation is stored in exactly one tier, in "
         "no transfer slot, both free spaces adjusted by exactly size; a move "
         "without room in the destination returns False and changes nothing; "
+        "plus two hot->cold moves overlapping in time (second started 0-3 "
+        "steps after the first): total conserved each step, both complete "
+        "on time, each observation stored once in cold; "
         "non-trivial = a move that transferred data")
 
 
@@ -183,6 +186,102 @@ def run_history(c):
     return vs, steps_total, moved_any
 
 
+def run_overlap(c):
+    """two observations stored in hot; a second hot->cold move is started
+    `gap` steps after the first (Buffer.run does that while the hot tier
+    stays over its threshold).  -> (violations, steps, moved_any)"""
+    env, probe, buf = build(c)
+    h, cold = buf.hot[0], buf.cold[0]
+    s1, s2 = c["sizes"]
+    o1 = Observation("a", 0, 1, 1, "none", s1)
+    o1.total_data_size = s1
+    o2 = Observation("b", 0, 1, 1, "none", s2)
+    o2.total_data_size = s2
+    # observation_for_transfer pops the LAST stored one
+    h.observations['stored'].extend([o2, o1])
+    h.current_capacity -= (s1 + s2)
+    r = min(c["hotrate"], c["coldrate"])
+    total0 = h.current_capacity + cold.current_capacity
+    vs = []
+    procs = [env.process(buf.move_hot_to_cold(0))]
+    started2 = False
+    steps = 0
+    limit = s1 + s2 + c["gap"] + 6
+    err = None
+    while steps <= limit:
+        if not started2 and steps >= c["gap"]:
+            procs.append(env.process(buf.move_hot_to_cold(0)))
+            started2 = True
+        try:
+            while env._queue and env._queue[0][0] <= env.now:
+                env.step()
+        except Exception as e:
+            err = e
+            break
+        if h.current_capacity + cold.current_capacity != total0:
+            vs.append(("C18.conserved-each-step",
+                       "overlapping-h2c:total-not-conserved",
+                       {"step": steps, "hot_free": h.current_capacity,
+                        "cold_free": cold.current_capacity,
+                        "expected_sum": total0}))
+            break
+        if started2 and all(p.triggered for p in procs):
+            break
+        steps += 1
+        env._now = env.now + 1
+    if err is not None or any(p.triggered and not p.ok for p in procs):
+        e = err if err is not None else [p.value for p in procs
+                                         if p.triggered and not p.ok][0]
+        vs.append(("C18.completes", "overlapping-h2c:raised-%s"
+                   % type(e).__name__, {"error": repr(e)}))
+        return vs, steps, False
+    if vs:
+        return vs, steps, True
+    if not all(p.triggered for p in procs):
+        vs.append(("C18.completes", "overlapping-h2c:never-completes",
+                   {"steps": steps}))
+        return vs, steps, True
+    want_last = max(math.ceil(s1 / r), c["gap"] + math.ceil(s2 / r))
+    if steps != want_last:
+        vs.append(("C18.duration", "overlapping-h2c:took-%s-steps" % (
+            "more" if steps > want_last else "fewer"),
+            {"steps": steps, "expected": want_last}))
+    st = state(buf)
+    hs, ht, cs, ct = st[2], st[3], st[4], st[5]
+    for nm in ("a", "b"):
+        n_in = hs.count(nm) + cs.count(nm)
+        if n_in != 1 or cs.count(nm) != 1:
+            vs.append(("C18.stored-in-one-tier", "overlapping-h2c:stored-in-%s"
+                       % ("neither" if n_in == 0 else "both-or-twice"
+                          if n_in > 1 else "source"),
+                       {"obs": nm, "hot": hs, "cold": cs}))
+            break
+    if ht is not None or ct is not None:
+        vs.append(("C18.stored-in-one-tier",
+                   "overlapping-h2c:left-in-transfer-slot",
+                   {"hot_transfer": ht, "cold_transfer": ct}))
+    if h.current_capacity != c["hotcap"] or \
+            cold.current_capacity != c["coldcap"] - s1 - s2:
+        vs.append(("C18.free-space-adjusted", "overlapping-h2c:not-by-size",
+                   {"hot_free": h.current_capacity,
+                    "cold_free": cold.current_capacity}))
+    return vs, steps, True
+
+
+def overlap_domain(tier):
+    sizes = [(3, 5), (6, 10), (4, 4), (2, 7), (5, 1)]
+    rates = [(1, 1), (2, 2), (2, 3), (3, 2), (4, 1)]
+    if tier == "thorough":
+        sizes += [(7, 7), (9, 2), (1, 1), (8, 12)]
+        rates += [(1, 4), (5, 5), (3, 3)]
+    for (s1, s2), (hr, cr), gap in itertools.product(sizes, rates,
+                                                      (0, 1, 2, 3)):
+        yield {"engine": "E2", "overlap": True, "sizes": [s1, s2],
+               "hotrate": hr, "coldrate": cr, "gap": gap,
+               "hotcap": s1 + s2 + 5, "coldcap": s1 + s2 + 5,
+               "moves": ["h2c", "h2c"]}
+
+
 def domain(tier):
     sizes = range(1, 17) if tier == "thorough" else range(1, 9)
     rates = range(1, 7) if tier == "thorough" else range(1, 5)
@@ -208,14 +307,19 @@ def run(rep, tier, seed):
     rep.rule = RULE
     rep.assumptions = ["moves driven directly on the Buffer (the policy that "
                        "decides when to move is exercised by C05/C07)"]
-    items = common.rotate(list(domain(tier)), seed)
+    items = common.rotate(list(domain(tier)) + list(overlap_domain(tier)),
+                          seed)
 
     def work(i, c):
+        if c.get("overlap"):
+            return run_overlap(c)
         return run_history(c)
     res, _ = engine.parallel_map(work, items, chunk=100)
     both = set()
     for c, (vs, steps, moved) in zip(items, res):
-        s = rep.scope("E2-buffer-%s" % "-".join(c["moves"]))
+        s = rep.scope("E2-buffer-%s%s" % ("-".join(c["moves"]),
+                                          "-overlapping" if c.get("overlap")
+                                          else ""))
         s["cases"] += 1
         s["executions"] += 1
         rep.evaluations += 1
@@ -237,5 +341,8 @@ def run(rep, tier, seed):
 
 
 def replay(payload):
-    vs, _, _ = run_history(payload)
+    if payload.get("overlap"):
+        vs, _, _ = run_overlap(payload)
+    else:
+        vs, _, _ = run_history(payload)
     return [{"clause": a, "cause": b, "detail": c} for a, b, c in vs]
